@@ -241,6 +241,125 @@ fn c14_is_null_literal_trees() {
     core::mem::forget(p);
 }
 
+/// 3VL value of `x IN (a, b)` for operands in {FALSE(0), TRUE(1), NULL}: TRUE if x equals a non-NULL
+/// element; UNKNOWN if x is NULL or (no match and some element is NULL); FALSE otherwise
+fn in_oracle(x: Option<bool>, a: Option<bool>, b: Option<bool>) -> T {
+    match x {
+        None => T::Unknown,
+        Some(v) => {
+            if a == Some(v) || b == Some(v) { T::True } else if a.is_none() || b.is_none() { T::Unknown } else { T::False }
+        }
+    }
+}
+fn t_not(t: T) -> T { match t { T::True => T::False, T::False => T::True, T::Unknown => T::Unknown } }
+fn lit(v: Option<bool>) -> Expr<'static> {
+    match v { None => Expr::Literal(Literal::Null), Some(b) => Expr::Literal(Literal::Boolean(b)) }
+}
+fn dom(k: u8) -> Option<bool> { match k { 0 => Some(false), 1 => Some(true), _ => None } }
+
+//@ props=C14 kind=bounded bound="x [NOT] IN (a, b) over literal operands in {FALSE, TRUE, NULL}: the 18 combinations without a NULL among the list elements and with a non-NULL x" timeout=900
+/// [NOT] IN over literal trees (no NULL involved): the filter (eval_expr) and the select-list value
+/// (eval_value) are TRUE exactly when SQL says TRUE
+#[kani::proof]
+#[kani::stub(eyre::capture_handler, vs::capture_handler)]
+#[kani::stub(eyre::private::new_adhoc, vs::new_adhoc)]
+#[kani::stub(eyre::private::format_err, vs::format_err)]
+#[kani::stub(alloc::fmt::format, vs::format)]
+#[kani::unwind(20)]
+fn c14_in_list_literal_trees() {
+    let cells: [Value<'static>; 1] = [Value::Null];
+    let row = ExecutorRow::new(&cells);
+    let p = pred();
+    let mut code = 0u8;
+    while code < 16 {
+        // x, a, b in {FALSE, TRUE}; negated
+        let (x, a, b, negated) = (dom(code & 1), dom((code >> 1) & 1), dom((code >> 2) & 1), (code >> 3) & 1 == 1);
+        let (ex, ea, eb) = (lit(x), lit(a), lit(b));
+        let items: [&Expr; 2] = [&ea, &eb];
+        let e = Expr::InList { expr: &ex, negated, list: &items[..] };
+        let want = if negated { t_not(in_oracle(x, a, b)) } else { in_oracle(x, a, b) };
+        let f = p.eval_expr(&e, &row);
+        let v = p.eval_value(&e, &row);
+        assert!(f == (want == T::True));
+        assert!((truth_of(&v) == T::True) == (want == T::True));
+        code += 1;
+    }
+    core::mem::forget(p);
+}
+
+//@ props=C14 kind=known finding=F-C14-4
+/// KNOWN FINDING F-C14-4: `x NOT IN (…, NULL)` without a match and `NULL NOT IN (…)` are UNKNOWN under SQL
+/// and must not pass a filter; the evaluator answers TRUE
+#[kani::proof]
+#[kani::stub(eyre::capture_handler, vs::capture_handler)]
+#[kani::stub(eyre::private::new_adhoc, vs::new_adhoc)]
+#[kani::stub(eyre::private::format_err, vs::format_err)]
+#[kani::stub(alloc::fmt::format, vs::format)]
+#[kani::unwind(8)]
+fn c14_known_not_in_with_null() {
+    let cells: [Value<'static>; 1] = [Value::Null];
+    let row = ExecutorRow::new(&cells);
+    let p = pred();
+    // TRUE NOT IN (FALSE, NULL)
+    let (ex, ea, eb) = (lit(Some(true)), lit(Some(false)), lit(None));
+    let items: [&Expr; 2] = [&ea, &eb];
+    let e = Expr::InList { expr: &ex, negated: true, list: &items[..] };
+    let f1 = p.eval_expr(&e, &row);
+    // NULL NOT IN (FALSE, TRUE)
+    let (ex2, ea2, eb2) = (lit(None), lit(Some(false)), lit(Some(true)));
+    let items2: [&Expr; 2] = [&ea2, &eb2];
+    let e2 = Expr::InList { expr: &ex2, negated: true, list: &items2[..] };
+    let f2 = p.eval_expr(&e2, &row);
+    core::mem::forget(p);
+    assert!(!f1 && !f2);
+}
+
+//@ props=C14 kind=bounded bound="x [NOT] BETWEEN lo AND hi over literal operands in {FALSE(0), TRUE(1)}: all 16 combinations" timeout=900
+/// [NOT] BETWEEN over non-NULL literal trees: TRUE exactly when lo <= x <= hi (resp. its negation)
+#[kani::proof]
+#[kani::stub(eyre::capture_handler, vs::capture_handler)]
+#[kani::stub(eyre::private::new_adhoc, vs::new_adhoc)]
+#[kani::stub(eyre::private::format_err, vs::format_err)]
+#[kani::stub(alloc::fmt::format, vs::format)]
+#[kani::unwind(20)]
+fn c14_between_literal_trees() {
+    let cells: [Value<'static>; 1] = [Value::Null];
+    let row = ExecutorRow::new(&cells);
+    let p = pred();
+    let mut code = 0u8;
+    while code < 16 {
+        let (x, lo, hi, negated) = (code & 1 == 1, (code >> 1) & 1 == 1, (code >> 2) & 1 == 1, (code >> 3) & 1 == 1);
+        let (ex, el, eh) = (lit(Some(x)), lit(Some(lo)), lit(Some(hi)));
+        let e = Expr::Between { expr: &ex, negated, low: &el, high: &eh };
+        let inside = (lo as u8) <= (x as u8) && (x as u8) <= (hi as u8);
+        let want = inside != negated;
+        assert!(p.eval_expr(&e, &row) == want);
+        assert!((truth_of(&p.eval_value(&e, &row)) == T::True) == want);
+        code += 1;
+    }
+    core::mem::forget(p);
+}
+
+//@ props=C14 kind=known finding=F-C14-5
+/// KNOWN FINDING F-C14-5: `TRUE NOT BETWEEN FALSE AND NULL` is UNKNOWN under SQL (NOT (x >= lo AND x <= NULL)
+/// with x >= lo) and must not pass a filter; the evaluator answers TRUE
+#[kani::proof]
+#[kani::stub(eyre::capture_handler, vs::capture_handler)]
+#[kani::stub(eyre::private::new_adhoc, vs::new_adhoc)]
+#[kani::stub(eyre::private::format_err, vs::format_err)]
+#[kani::stub(alloc::fmt::format, vs::format)]
+#[kani::unwind(8)]
+fn c14_known_not_between_null_bound() {
+    let cells: [Value<'static>; 1] = [Value::Null];
+    let row = ExecutorRow::new(&cells);
+    let p = pred();
+    let (ex, el, eh) = (lit(Some(true)), lit(Some(false)), lit(None));
+    let e = Expr::Between { expr: &ex, negated: true, low: &el, high: &eh };
+    let f = p.eval_expr(&e, &row);
+    core::mem::forget(p);
+    assert!(!f);
+}
+
 // ------------------------------------------------------------------------------------------------
 // C20: integer arithmetic
 // ------------------------------------------------------------------------------------------------
